@@ -174,11 +174,17 @@ def rule_cache(ctx):
             ctx.check(R, "analyze_%s/replace-unconditional-on-success" % kind, okv is not None, "replace under %s" % cs, site(RUN, rep[0]))
             key_ = render(strip(take[0]["args"][0]))
             ctx.check(R, "analyze_%s/same-key" % kind, okv is not None and render(strip(rep[0]["args"][0])) == key_ and render(strip(rep[0]["args"][1])) == okv, "take(%s) replace(%s)" % (render(take[0]["args"]), render(rep[0]["args"])), site(RUN, fn))
-        for nm, want in (("take_" + kind, "self.%s_cfgs.remove(name).unwrap()" % kind), ("replace_" + kind, "self.%s_cfgs.insert(name.to_string(),cfg).is_some()" % kind)):
+        import sgrep as _sg
+
+        for nm, wants in (("take_" + kind, ["self.%s_cfgs.remove(__n).unwrap()" % kind, "self.%s_cfgs.remove(__n).expect(__m)" % kind]), ("replace_" + kind, ["self.%s_cfgs.insert(__n.to_string(), __c).is_some()" % kind, "self.%s_cfgs.insert(__n.to_owned(), __c).is_some()" % kind, "self.%s_cfgs.insert(__n.into(), __c).is_some()" % kind])):
             f2 = find_fn(RUN, nm)
             if f2 is not None:
                 t = render(f2["body"]).replace(" ", "")
-                ctx.check(R, "%s/keyed-by-name" % nm, want in t, t[:160], site(RUN, f2))
+                pv_ = _sg.params(f2)
+                roles = {"__n": pv_[0]} if pv_ else {}
+                if len(pv_) > 1:
+                    roles["__c"] = pv_[1]
+                ctx.check(R, "%s/keyed-by-name" % nm, bool(pv_) and any(_sg.has(f2["body"], w, _sg.lets(f2["body"]), dict(roles)) for w in wants), t[:160], site(RUN, f2))
 
 
 def run(ctx):
